@@ -129,7 +129,7 @@ class IdleAdapter:
         out = []
         for a, ix in self.valet.servant.ixes.items():
             rep = self.valet.reps.get(a)
-            out.append((a, ix.timeout, max(0.0, ix.timer.stop - self.store.stamp), rep is not None and bool(rep.ended)))
+            out.append((a, ix.timeout, max(-4.0 * ix.timeout, ix.timer.stop - self.store.stamp), rep is not None and bool(rep.ended)))
         return tuple(out)
 
     # ---- steps
